@@ -913,7 +913,10 @@ class PersistentDict(collections.abc.MutableMapping):
 
     def reload(self):
         """Force a reload from disk, overwriting current cache"""
-        self._cache = dict(self._func.items())
+        # Update in place: the finalizer registered in __init__ holds a reference to this dict.
+        fresh = dict(self._func.items())
+        self._cache.clear()
+        self._cache.update(fresh)
 
 
 SEARCH_PATH = []
